@@ -39,7 +39,10 @@ func genProtoPlan(seed uint64, thorough bool) *Plan {
 		case 10:
 			c = g.expireCmd(simEpochNs)
 		case 11:
-			c = g.pick2([][]string{{"HGETALL", g.key()}, {"SMEMBERS", g.key()}, {"HRANDFIELD", g.key(), "3", "WITHVALUES"}, {"LCS", g.key(), g.key(), "IDX"}, {"INCRBYFLOAT", g.key(), "1.5"}, {"HINCRBYFLOAT", g.key(), "f1", "0.25"}, {"CLIENT", "INFO"}, {"COMMAND", "COUNT"}, {"SMISMEMBER", g.key(), "m1", "m2"}, {"EXISTS", g.key()}, {"TYPE", g.key()}, {"PING"}, {"ECHO", "x"}, {"CLIENT", "GETNAME"}, {"SISMEMBER", g.key(), "m1"}})
+			c = g.pick2([][]string{{"HGETALL", g.key()}, {"SMEMBERS", g.key()}, {"HRANDFIELD", g.key(), "3", "WITHVALUES"}, {"LCS", g.key(), g.key(), "IDX"}, {"INCRBYFLOAT", g.key(), "1.5"}, {"HINCRBYFLOAT", g.key(), "f1", "0.25"}, {"CLIENT", "INFO"}, {"COMMAND", "COUNT"}, {"SMISMEMBER", g.key(), "m1", "m2"}, {"EXISTS", g.key()}, {"TYPE", g.key()}, {"PING"}, {"ECHO", "x"}, {"CLIENT", "GETNAME"}, {"SISMEMBER", g.key(), "m1"},
+				// nested aggregates: map -> array -> map
+				{"COMMAND", "DOCS", g.pick("get", "set", "hello", "client", "lpos", "sort", "bitfield", "nosuchcmd")}, {"COMMAND", "INFO", g.pick("get", "lmpop", "client", "exec")},
+				{"COMMAND", "DOCS", g.pick("hset", "sintercard"), g.pick("lrange", "expire")}, {"COMMAND", "LIST", "FILTERBY", "PATTERN", g.pick("h*", "s[a-m]*", "client*")}, {"COMMAND", "GETKEYS", "MSET", "a", "1", "b", "2"}})
 		case 12:
 			c = g.shape()
 		default:
